@@ -15,7 +15,7 @@ PARTS = ["gen", "incl", "cons", "last", "ht"]
 
 
 def run(chk, args):
-    n = 10 if chk.tier == "quick" else 16
+    n = 9 if chk.tier == "quick" else 16
     fixed = vlib.model_flag("C08_FixedVerifiers")
     binp = vlib.go_build("c08")
     wd = vlib.scratch("C08")
@@ -89,40 +89,46 @@ def run_aht(chk, binp, wd):
     thorough = chk.tier == "thorough"
     ml, mo = (6, 12) if thorough else (5, 10)
     inv = "TypeOK SelfConsistent SyncedOnDisk Refines"
-    behaviours = {1: [], 2: [], 3: []}
-    for thld in (1, 2, 3):
-        d = vlib.run_tlc("AHT", "aht.cfg", workers=8, timeout=1200,
+    def group(thld):
+        """design model, code model (counterexample expected), simulation, replay — for one SyncThld; returns what to fold into chk"""
+        tl, bs = [], []
+        d = vlib.run_tlc("AHT", "aht.cfg", workers=4, timeout=1200,
                          files=[("aht.cfg", AHT_CFG % (ml, mo, thld, "FALSE", "TRUE", 0, inv, "VIEW View"))], tag="C08aht")
         vlib.tlc_must_pass(d, "AHT design model (SyncThld=%d)" % thld)
-        chk.add_tlc(d, "AHT design StaleSuffix=FALSE SyncThld=%d MaxLeaves=%d MaxOps=%d" % (thld, ml, mo))
+        tl.append((d, "AHT design StaleSuffix=FALSE SyncThld=%d MaxLeaves=%d MaxOps=%d" % (thld, ml, mo)))
         c = vlib.run_tlc("AHT", "aht.cfg", workers=1, timeout=1200,
                          files=[("aht.cfg", AHT_CFG % (ml, mo, thld, "TRUE", "TRUE", 0, inv, "VIEW View"))], tag="C08aht")
         if c.error:
             raise MachineryFault("AHT code model: " + c.error)
-        chk.add_tlc(c, "AHT code StaleSuffix=TRUE SyncThld=%d (counterexample expected: %s)" % (thld, c.violation))
+        tl.append((c, "AHT code StaleSuffix=TRUE SyncThld=%d (counterexample expected: %s)" % (thld, c.violation)))
         if c.violation:
             st = vlib.error_trace_last_state(c.out)
             if not st or "hist" not in st:
                 raise MachineryFault("cannot parse AHT counterexample")
-            ops = [o for o in st["hist"] if o["op"] != "flush"] if False else st["hist"]
-            behaviours[thld].append({"ops": ops, "origin": "tlc-counterexample:" + c.violation})
+            bs.append({"ops": st["hist"], "origin": "tlc-counterexample:" + c.violation})
         num = 1500 if thorough else 250
         sm = vlib.run_tlc("AHT", "aht.cfg", workers=1, timeout=1200,
                           extra=["-simulate", "num=%d" % num, "-depth", "16", "-seed", str(chk.seed + thld)],
                           files=[("aht.cfg", AHT_CFG % (10, 14, thld, "TRUE", "FALSE", 14, "TypeOK Emit", ""))], tag="C08aht")
         if sm.error or sm.violation:
             raise MachineryFault("AHT simulation: %s %s" % (sm.error, sm.violation))
-        bs = vlib.printed_json(sm.out)
-        if len(bs) < num // 2:
-            raise MachineryFault("AHT simulation printed only %d behaviours" % len(bs))
-        behaviours[thld] += bs
-    for thld, bs in behaviours.items():
+        sim = vlib.printed_json(sm.out)
+        if len(sim) < num // 2:
+            raise MachineryFault("AHT simulation printed only %d behaviours" % len(sim))
+        bs += sim
         p = os.path.join(wd, "aht_%d.json" % thld)
         json.dump({"syncThld": thld, "behaviours": bs}, open(p, "w"))
         dd = os.path.join(wd, "ahtd_%d" % thld)
         os.makedirs(dd)
         out, _ = vlib.run_harness(binp, ["-aht", p, "-seed", str(chk.seed), "-dir", dd])
-        vlib.absorb(chk, json.loads(out))
+        return tl, json.loads(out)
+
+    with cf.ThreadPoolExecutor(3) as ex:
+        groups = list(ex.map(group, (1, 2, 3)))
+    for tl, r in groups:
+        for res, name in tl:
+            chk.add_tlc(res, name)
+        vlib.absorb(chk, r)
     chk.assumptions.append("AHT state machine: fixed-size payloads (slots), process kill keeps exactly what was written to the files")
 
 
